@@ -252,7 +252,7 @@ def hist_container(case):
 
 def hist_c25(case):
     """case = {"cls": disposable|boolean|scheduled, "action": plain|none|reentrant|raises (disposable),
-    "item": kind, "sched": virtual|immediate (scheduled), "cmds": [["dispose"] | ["run"] | ["read"]]}"""
+    "item": kind, "on": virtual|immediate (scheduled), "cmds": [["dispose"] | ["run"] | ["read"]]}"""
     cls, cmds = case["cls"], case["cmds"]
     classes = set()
     ndisp = sum(1 for c in cmds if c[0] == "dispose")
@@ -308,7 +308,7 @@ def hist_c25(case):
         from reactivex.testing import TestScheduler
 
         item = make_item(case.get("item", "plain"), "wrapped")
-        virtual = case.get("sched", "virtual") == "virtual"
+        virtual = case.get("on", "virtual") == "virtual"
         sched = TestScheduler() if virtual else ImmediateScheduler()
         d = ScheduledDisposable(sched, item)
         pending = 0
@@ -407,3 +407,355 @@ def hist_refcount(case):
     if under.__class__ is Empty:
         classes.add("falsy-item")
     return OK(nontrivial, sorted(classes))
+
+
+# ---------------------------------------------------------------------------------------------
+# DET: 2-3 logical threads on one shared object
+# ---------------------------------------------------------------------------------------------
+RUN_KW = dict(max_steps=4000, reuse_threads=True)  # disposables do not look at thread identity
+
+
+def det_build(case):
+    """case = {"cls", "init": [kinds], "foreign": [kinds], "item": kind, "deps": int, "action": ...,
+    "threads": [[cmd...]...]}.  Returns (thread callables, ctx).  Must be called while det.patched()."""
+    cls = case["cls"]
+    T = case["threads"]
+    ctx = {"cls": cls, "items": [], "slot": {}, "count": [0], "results": {}}
+    items = ctx["items"]
+    for k in case.get("init", []):
+        items.append(make_item(k, f"init{len(items)}"))
+    n_init = len(items)
+    for t, cmds in enumerate(T):
+        for i, c in enumerate(cmds):
+            if c[0] in ("add", "assign"):
+                ctx["slot"][(t, i)] = len(items)
+                items.append(make_item(c[1], f"t{t}c{i}:{c[1]}"))
+    for k in case.get("foreign", []):
+        items.append(make_item(k, f"foreign{len(items)}"))
+    ctx["n_init"] = n_init
+    if cls == "composite":
+        obj = CompositeDisposable(*items[:n_init])
+    elif cls in CONTAINERS:
+        obj = CONTAINERS[cls]()
+    elif cls == "disposable":
+        def action():
+            det.yield_point("action")
+            ctx["count"][0] += 1
+            det.log("action")
+
+        obj = Disposable(action)
+    elif cls == "boolean":
+        obj = BooleanDisposable()
+    elif cls == "scheduled":
+        from reactivex.scheduler import EventLoopScheduler, ImmediateScheduler
+
+        ctx["under"] = make_item(case.get("item", "plain"), "wrapped")
+        ctx["sched"] = EventLoopScheduler() if case.get("on") == "eventloop" else ImmediateScheduler()
+        obj = ScheduledDisposable(ctx["sched"], ctx["under"])
+    elif cls == "refcount":
+        ctx["under"] = make_item(case.get("item", "plain"), "underlying")
+        obj = RefCountDisposable(ctx["under"])
+        ctx["deps"] = [obj.disposable for _ in range(case.get("deps", 0))]
+    else:
+        raise HarnessError(f"bad cls {cls}")
+    ctx["obj"] = obj
+    bad = det.audit_object(obj)
+    if bad:
+        raise HarnessError(f"object under test carries real locks (built before patching?): {bad}")
+    results = ctx["results"]
+
+    def make_thread(t, cmds):
+        def body():
+            for i, c in enumerate(cmds):
+                op = c[0]
+                det.log("call", t, i)
+                out = None
+                try:
+                    if op == "dispose" or op == "primary":
+                        obj.dispose()
+                        out = ["flag", bool(obj.is_disposed)] if cls != "refcount" else None
+                    elif op == "add":
+                        obj.add(items[ctx["slot"][(t, i)]])
+                    elif op == "remove":
+                        if items:
+                            out = ["ret", bool(obj.remove(items[c[1] % len(items)]))]
+                    elif op == "clear":
+                        obj.clear()
+                    elif op == "assign":
+                        obj.disposable = items[ctx["slot"][(t, i)]]
+                    elif op == "dep":
+                        ctx["deps"][c[1] % len(ctx["deps"])].dispose()
+                    elif op == "get":
+                        dep = obj.disposable
+                        det.log("got", t, i)
+                        results[(t, i, "dep")] = dep
+                    elif op == "getdisp":
+                        dep = obj.disposable
+                        det.log("got", t, i)
+                        results[(t, i, "dep")] = dep
+                        det.yield_point("between-get-and-dispose")
+                        det.log("depcall", t, i)
+                        dep.dispose()
+                    else:
+                        raise HarnessError(f"bad op {op}")
+                except HarnessError:
+                    raise
+                except Exception as e:  # noqa: BLE001
+                    if op == "assign" and cls == "single":
+                        out = ["raised", type(e).__name__]
+                    else:
+                        raise
+                results[(t, i)] = out
+                det.log("ret", t, i)
+
+        return body
+
+    return [make_thread(t, cmds) for t, cmds in enumerate(T)], ctx
+
+
+def _pos(events):
+    """index of each harness event in the global order"""
+    p = {}
+    for k, (_, _, pl) in enumerate(events):
+        if isinstance(pl, tuple):
+            p.setdefault(pl, k)
+    return p
+
+
+def det_judge(case, ctx, res):
+    """Interleaving-independent end-state clauses.  Returns None or (clause, detail)."""
+    cls, T = case["cls"], case["threads"]
+    items, obj, results = ctx["items"], ctx["obj"], ctx["results"]
+    if res.deadlock:
+        return "deadlock", repr(res.deadlock)
+    if res.exceptions:
+        tid, e = sorted(res.exceptions.items())[0]
+        return f"escaped:{type(e).__name__}", f"thread {tid}: {e!r}"
+    if not res.complete:
+        return None
+    pos = _pos(res.events)
+    cmds = [(t, i, c) for t, cl in enumerate(T) for i, c in enumerate(cl)]
+    disposes = [(t, i) for t, i, c in cmds if c[0] in ("dispose", "primary")]
+    # C25 clause shared by all classes with a flag: is_disposed is true once a dispose() returned
+    if cls != "refcount" and not (cls == "scheduled" and case.get("on") == "eventloop"):
+        for t, i in disposes:
+            if results.get((t, i)) != ["flag", True]:
+                return "is_disposed-after-dispose", f"thread {t} cmd {i}: is_disposed was {results.get((t, i))} right after dispose() returned"
+    for it in items:
+        if it.n > 1:
+            return "disposed-twice" + (":falsy" if it.__class__ is Empty else ""), f"{it!r}"
+    n_init = ctx["n_init"]
+    added = list(range(n_init)) + sorted(ctx["slot"].values())
+    D = bool(disposes)
+    if cls == "composite":
+        held = obj.to_list()
+        for j in range(len(items)):
+            it = items[j]
+            if j not in added:
+                if it.n:
+                    return "disposed-unpromised", f"foreign {it!r}"
+                continue
+            in_held = any(x is it for x in held)
+            if it.n == 0 and not in_held:
+                return "lost-item", f"{it!r} is neither held nor disposed (container disposed={D})"
+            if it.n == 1 and in_held:
+                return "disposed-while-held", f"{it!r}"
+            could = D or any(c[0] == "clear" or (c[0] == "remove" and c[1] % len(items) == j) for _, _, c in cmds)  # items non-empty here
+            if it.n and not could:
+                return "disposed-unpromised", f"{it!r}"
+        if D and held:
+            return "held-after-dispose", f"{held!r}"
+        for t, i, c in cmds:
+            if c[0] == "remove" and items and results.get((t, i)) == ["ret", True] and items[c[1] % len(items)].n != 1:
+                return "removed-not-disposed", f"{items[c[1] % len(items)]!r}"
+    elif cls in ("serial", "multi", "single"):
+        cur = obj.disposable
+        assigns = [(t, i) for t, i, c in cmds if c[0] == "assign"]
+        ok_assigns = [a for a in assigns if results.get(a) is None]
+        its = {a: items[ctx["slot"][a]] for a in assigns}
+        if cls == "single":
+            first_dispose_call = min([pos[("call", t, i)] for t, i in disposes], default=None)
+            live_ok = [a for a in ok_assigns if first_dispose_call is None or pos[("ret",) + a] < first_dispose_call]
+            if len(live_ok) > 1:
+                return "second-assign-accepted", f"{len(live_ok)} assignments to a live SingleAssignmentDisposable were accepted: {[its[a] for a in live_ok]}"
+            if not D and assigns and len(ok_assigns) != 1:
+                return "assign-count", f"{len(ok_assigns)} of {len(assigns)} assignments accepted without any dispose"
+            for a in assigns:
+                if results.get(a) is not None and its[a].n and not D:
+                    return "disposed-unpromised", f"rejected {its[a]!r}"
+        if D:
+            if cls != "single" and cur is not None:
+                return "held-after-dispose", f"disposable={cur!r} after dispose() returned"
+            if cls == "multi":
+                last_ret = min(pos[("ret", t, i)] for t, i in disposes)
+                for a in ok_assigns:
+                    if pos[("call",) + a] > last_ret and its[a].n != 1:
+                        return "not-disposed", f"{its[a]!r} assigned after dispose() returned"
+                if ok_assigns and sum(1 for a in ok_assigns if its[a].n == 0) > len(ok_assigns) - 1:
+                    return "lost-item", f"container disposed but none of {[its[a] for a in ok_assigns]} was disposed"
+            else:
+                for a in ok_assigns:
+                    if its[a].n != 1:
+                        return "not-disposed" + (":falsy" if its[a].__class__ is Empty else ""), f"{its[a]!r} was assigned (accepted) and the container is disposed"
+        else:
+            for a in ok_assigns:
+                it = its[a]
+                if cls == "multi":
+                    if it.n:
+                        return "disposed-unpromised", f"{it!r}"
+                elif (it.n == 0) != (cur is it):
+                    return ("disposed-while-held" if it.n else "lost-item"), f"{it!r} current={cur!r}"
+            if ok_assigns and not any(cur is its[a] for a in ok_assigns):
+                return "lost-item", f"current={cur!r} is none of the assigned items"
+    elif cls == "disposable":
+        want = 1 if D else 0
+        if ctx["count"][0] != want:
+            return "action-count", f"action ran {ctx['count'][0]} times for {len(disposes)} dispose calls"
+    elif cls == "boolean":
+        pass
+    elif cls == "scheduled":
+        under = ctx["under"]
+        if under.n != (1 if D else 0):
+            return "wrapped-count", f"{under!r} after {len(disposes)} dispose calls"
+        if case.get("on") == "eventloop" and D:
+            ev = [(k, tid) for k, (_, tid, pl) in enumerate(res.events) if pl == ("item", "wrapped")]
+            if ev and ev[0][1] is not None and ev[0][1] < len(T):
+                return "disposed-off-scheduler", f"wrapped resource disposed on program thread {ev[0][1]}, not on the scheduler's thread"
+    elif cls == "refcount":
+        under = ctx["under"]
+        ndeps = len(ctx["deps"])
+        if under.n > 1:
+            return "released-twice", f"{under!r}"
+        rel = pos.get(("item", "underlying"))
+        prim_calls = [pos[("call", t, i)] for t, i in disposes]
+        dep_calls = {}
+        for t, i, c in cmds:
+            if c[0] == "dep" and ndeps:
+                j = c[1] % ndeps
+                dep_calls[j] = min(dep_calls.get(j, 1 << 60), pos[("call", t, i)])
+        keeps = [(t, i) for t, i, c in cmds if c[0] == "get"]
+        gds = [(t, i) for t, i, c in cmds if c[0] == "getdisp"]
+        if rel is not None:
+            if not prim_calls or min(prim_calls) > rel:
+                return "released-early", "underlying disposed before the primary dispose() was called"
+            for j in range(ndeps):
+                if dep_calls.get(j, 1 << 60) > rel:
+                    return "released-early", f"underlying disposed while dependent {j} was not disposed"
+            # a dependent requested after the release was *decided* (but before the underlying dispose() ran) is
+            # inert by contract; only dependents that are real InnerDisposables count as live here
+            live = lambda a: isinstance(results.get(a + ("dep",)), RefCountDisposable.InnerDisposable)  # noqa: E731
+            for a in keeps:
+                if pos[("got",) + a] < rel and live(a):
+                    return "released-early", f"underlying disposed while the dependent handed out at {a} is live"
+            for a in gds:
+                if pos[("got",) + a] < rel and pos[("depcall",) + a] > rel and live(a):
+                    return "released-early", f"underlying disposed before the dependent handed out at {a} was disposed"
+        else:
+            if prim_calls and all(j in dep_calls for j in range(ndeps)) and not keeps:
+                return "not-released", f"primary and all {ndeps}+{len(gds)} dependents disposed but underlying {under!r}"
+    return None
+
+
+def det_classes(case, res):
+    cl = [f"T{len(case['threads'])}"]
+    if res.overlapped():
+        cl.append("overlap")
+    return cl
+
+
+def det_run(case):
+    """Run a DET case.  case["sched"] = {"mode": "all", "K": k} (exhaustive up to k preemptions)
+    | {"mode": "raw", "points": [[pos, tid]...]} (resolved against the unpreempted run)
+    | {"mode": "exact", "points": [[step, tid]...]}."""
+    sched = case["sched"]
+    cls = case["cls"]
+    kw = dict(RUN_KW)
+    if case.get("opcodes"):
+        kw["opcodes"] = case["opcodes"]
+    if cls == "scheduled" and case.get("on") == "eventloop":
+        kw["reuse_threads"] = False
+    factory = lambda: det_build(case)  # noqa: E731
+
+    def verdict(s, res, ctx):
+        bad = det_judge(case, ctx, res)
+        if bad is None:
+            return None
+        # determinism: the failing (program, schedule) pair must fail the same way again
+        res2, ctx2 = det.run_checked(factory, s, **kw)
+        bad2 = det_judge(case, ctx2, res2)
+        if bad2 is None or bad2[0] != bad[0]:
+            raise HarnessError(f"verdict not reproducible for schedule {s}: {bad} vs {bad2}")
+        return bad[0], f"{bad[1]}; exact schedule={s}; {res2.describe()}; case={case}"
+
+    with det.patched():
+        if sched["mode"] == "all":
+            runs = 0
+            overlap = 0
+            incomplete = 0
+            for s, res, ctx in det.explore(factory, K=sched["K"], **kw):
+                if runs == 0:
+                    res_b, _ = det.run_checked(factory, s, **kw)  # determinism of the base run
+                    if res_b.fingerprint() != res.fingerprint():
+                        raise HarnessError("base run not deterministic")
+                runs += 1
+                overlap += res.overlapped()
+                incomplete += not res.complete
+                v = verdict(s, res, ctx)
+                if v:
+                    return FAIL(f"{v[0]}|{cls}", v[1], classes=["exhaustive"])
+            if incomplete:
+                return SKIP("budget")
+            cl = ["exhaustive", f"K{sched['K']}", f"T{len(case['threads'])}"]
+            cl += [f"runs>={b}" for b in (10, 100, 1000) if runs >= b]
+            return OK(overlap > 0, cl)
+        threads, ctx = factory()
+        base = det.run_program(threads, **kw)
+        if sched["mode"] == "raw":
+            s = det.resolve_schedule(sched["points"], base, nthreads=len(case["threads"]))
+        else:
+            s = [list(p) for p in sched["points"]]
+        if sum(p[0] for p in s) % 4 == 0:
+            res, ctx = det.run_checked(factory, s, **kw)
+        else:
+            threads, ctx = factory()
+            res = det.run_program(threads, s, **kw)
+        if not res.complete and not res.deadlock:
+            return SKIP("budget")
+        v = verdict(s, res, ctx)
+        if v:
+            return FAIL(f"{v[0]}|{cls}", v[1], classes=det_classes(case, res))
+        return OK(res.overlapped(), det_classes(case, res) + [f"switches:{min(len(res.switches()), 6)}"])
+
+
+# ---------------------------------------------------------------------------------------------
+# enumeration / generation helpers shared by props/C25-C27
+# ---------------------------------------------------------------------------------------------
+def sequences(alphabet, max_len, min_len=1):
+    """All command lists over `alphabet` with min_len..max_len commands."""
+    import itertools
+
+    for n in range(min_len, max_len + 1):
+        for seq in itertools.product(alphabet, repeat=n):
+            yield [list(c) for c in seq]
+
+
+def programs(alphabet, shapes):
+    """All thread lists whose thread lengths follow one of `shapes` (e.g. (1, 2) = 1 command || 2 commands)."""
+    import itertools
+
+    for shape in shapes:
+        per_thread = [list(sequences(alphabet, n, n)) for n in shape]
+        for combo in itertools.product(*per_thread):
+            yield [t for t in combo]
+
+
+def program_strategy(alphabet_strategy, max_threads=3, max_cmds=3):
+    from hypothesis import strategies as st
+
+    return st.lists(st.lists(alphabet_strategy, min_size=1, max_size=max_cmds), min_size=2, max_size=max_threads)
+
+
+def sched_strategy(K=3):
+    from hypothesis import strategies as st
+
+    return st.builds(lambda pts: {"mode": "raw", "points": pts}, det.raw_schedules(K=K, max_pos=128, max_tid=3))
